@@ -647,3 +647,118 @@ pub fn cmd_mmap_run(args: &[String]) -> i32 {
     println!("{}", json!({"events": n}));
     0
 }
+
+// ---------------------------------------------------------------- C15
+
+/// sigmf-fuzz --out FILE --seed S --n N: malformed SigMF metadata, recordings
+/// and archives into SigMFSourceBuilder::build(); a panic is recorded.
+pub fn cmd_sigmf_fuzz(args: &[String]) -> i32 {
+    quiet_panics();
+    rustradio::verif::set_thread_stream_size(4096);
+    let mut o = std::io::BufWriter::new(std::fs::File::create(arg_val(args, "--out").expect("--out")).expect("create"));
+    let mut rng = Rng::new(arg_usize(args, "--seed", 1) as u64);
+    let n = arg_usize(args, "--n", 100);
+    let metas: Vec<(&str, String)> = vec![
+        ("ok", r#"{"global":{"core:datatype":"ru8_le","core:version":"1.1.0"},"captures":[],"annotations":[]}"#.into()),
+        ("empty", "".into()),
+        ("not_json", "{{{{".into()),
+        ("null", "null".into()),
+        ("array", "[]".into()),
+        ("no_global", r#"{"captures":[]}"#.into()),
+        ("no_datatype", r#"{"global":{"core:version":"1.1.0"},"captures":[]}"#.into()),
+        ("datatype_number", r#"{"global":{"core:datatype":7,"core:version":"1.1.0"},"captures":[]}"#.into()),
+        ("wrong_type", r#"{"global":{"core:datatype":"cf32_le","core:version":"1.1.0"},"captures":[]}"#.into()),
+        ("no_captures", r#"{"global":{"core:datatype":"ru8_le","core:version":"1.1.0"}}"#.into()),
+        ("captures_string", r#"{"global":{"core:datatype":"ru8_le","core:version":"1.1.0"},"captures":"x"}"#.into()),
+        ("negative_start", r#"{"global":{"core:datatype":"ru8_le","core:version":"1.1.0"},"captures":[{"core:sample_start":-5}]}"#.into()),
+        ("huge_rate", r#"{"global":{"core:datatype":"ru8_le","core:version":"1.1.0","core:sample_rate":1e400},"captures":[]}"#.into()),
+        ("deep", format!("{}{}", "[".repeat(2000), "]".repeat(2000))),
+        ("binary", String::from_utf8_lossy(&[0xff, 0xfe, 0x00, 0x01, 0x80]).into_owned()),
+    ];
+    let mut events = 0;
+    for k in 0..n {
+        let (mname, meta) = &metas[k % metas.len()];
+        let shape = (k / metas.len()) % 8;
+        let dir = tempfile::tempdir().unwrap();
+        let data: Vec<u8> = (0..rng.below(50)).map(|i| i as u8).collect();
+        let (case, path): (String, std::path::PathBuf) = match shape {
+            0 => {
+                std::fs::write(dir.path().join("r.sigmf-meta"), meta).unwrap();
+                std::fs::write(dir.path().join("r.sigmf-data"), &data).unwrap();
+                (format!("recording:{mname}"), dir.path().join("r.sigmf"))
+            }
+            1 => {
+                std::fs::write(dir.path().join("r.sigmf-meta"), meta).unwrap();
+                (format!("recording_no_data:{mname}"), dir.path().join("r.sigmf"))
+            }
+            2 => (format!("missing:{mname}"), dir.path().join("nothing.sigmf")),
+            3 => {
+                let p = dir.path().join("a.sigmf");
+                std::fs::write(&p, meta.as_bytes()).unwrap(); // not a tar at all
+                (format!("archive_not_tar:{mname}"), p)
+            }
+            _ => {
+                let p = dir.path().join("a.sigmf");
+                let f = std::fs::File::create(&p).unwrap();
+                let mut tb = tar::Builder::new(f);
+                let mut add = |name: &str, content: &[u8], dir: bool| {
+                    let mut h = tar::Header::new_gnu();
+                    h.set_size(content.len() as u64);
+                    h.set_mode(0o644);
+                    if dir {
+                        h.set_entry_type(tar::EntryType::Directory);
+                    }
+                    h.set_cksum();
+                    let _ = tb.append_data(&mut h, name, content);
+                };
+                match shape {
+                    4 => {
+                        add("x.sigmf-meta", meta.as_bytes(), false);
+                        add("x.sigmf-data", &data, false);
+                    }
+                    5 => add("x.sigmf-meta", meta.as_bytes(), false), // no data member
+                    6 => {
+                        add("x.sigmf-meta", meta.as_bytes(), false);
+                        add("y.sigmf-meta", meta.as_bytes(), false);
+                        add("x.sigmf-data", &data, false);
+                    }
+                    _ => {
+                        add("x.sigmf-data", &data, false);
+                        add("x.sigmf-meta", b"", true); // meta is a directory entry
+                        add("x.sigmf-data", &data, false); // duplicate data
+                    }
+                }
+                let _ = tb.finish();
+                (format!("archive{shape}:{mname}"), p)
+            }
+        };
+        let r = catch(|| {
+            match SigMFSourceBuilder::<u8>::new(path.clone()).build() {
+                Ok((mut b, out)) => {
+                    // drive it a little
+                    for _ in 0..20 {
+                        match b.work() {
+                            Ok(BlockRet::EOF) | Err(_) => break,
+                            _ => {}
+                        }
+                        if let Ok((w, _)) = out.read_buf() {
+                            let k = w.len();
+                            w.consume(k);
+                        }
+                    }
+                    "ok"
+                }
+                Err(_) => "err",
+            }
+        });
+        let (result, msg) = match r {
+            Ok(s) => (s.to_string(), String::new()),
+            Err(p) => ("panic".to_string(), p),
+        };
+        writeln!(o, "{}", json!({"ev": "sigmf", "case": case, "result": result, "msg": msg})).unwrap();
+        events += 1;
+    }
+    o.flush().unwrap();
+    println!("{}", json!({"events": events}));
+    0
+}
